@@ -17,6 +17,7 @@ PROPS = {
     "C12": {"level": "proof", "lemma_files": ENGINE + ["contracts/path_laws.py"], "conformance": ["str"]},
     "C13": {"level": "proof", "lemma_files": ["contracts/path_laws.py"], "conformance": ["str"]},
     "C14": {"level": "proof", "lemma_files": ENGINE, "conformance": []},
+    "C15": {"level": "proof", "lemma_files": ["contracts/event_laws.py"], "conformance": [], "static": ["contracts.static_lock.lock_discipline"]},
     "C17": {"level": "proof", "lemma_files": ENGINE, "conformance": []},
     "C18": {"level": "proof", "lemma_files": ENGINE, "conformance": []},
     "C20": {"level": "proof", "lemma_files": ["contracts/smart_laws.py"], "conformance": []},
